@@ -16,14 +16,17 @@ def getmessages(box) -> typing.Iterator[Message]:
     mailbox.mbox decodes the "From " line in front of a message as ASCII and
     raises UnicodeDecodeError for anything else (an envelope sender or an
     unquoted line of a message body in UTF-8 or Latin-1).  Such a message is
-    served without its envelope line rather than taking the folder down."""
+    served without its envelope line rather than taking the folder down.
+    A Maildir entry that cannot be read (a dangling symbolic link, a file
+    without read permission) is no message: the mailbox module only skips
+    entries that vanished from the directory (KeyError)."""
     for key in box.iterkeys():
         try:
             yield box.get_message(key)
         except UnicodeDecodeError:
             yield mboxMessage(box.get_bytes(key))
-        except KeyError:
-            # Removed since the table of contents was read.
+        except (KeyError, OSError):
+            # Removed since the table of contents was read, or unreadable.
             continue
 
 
